@@ -1875,7 +1875,7 @@ def custom_inner_checks(ctx):
     products.  The adjoint treats such a weighting as 1.0."""
     import odl
     from odl.space.npy_tensors import NumpyTensorSpaceCustomInner
-    for scale, name in ((1.0, 'plain'), (2.0, 'scaled')):
+    for scale, name in ((1.0, 'plain'), (1.0, 'plain-vs-default'), (2.0, 'scaled')):
         for mode in MODES:
             for n, m, rlo, rhi in ((4, 6, -0.25, 1.25), (4, 2, 0.25, 0.75)):
                 try:
@@ -1884,6 +1884,10 @@ def custom_inner_checks(ctx):
                     w1 = NumpyTensorSpaceCustomInner(lambda a, b: np.vdot(b.data, a.data))
                     dom = odl.uniform_discr(0, 1, n, weighting=w)
                     ran = odl.uniform_discr(rlo, rhi, m, weighting=w1)
+                    if name == 'plain-vs-default':
+                        # custom (plain) inner product on one side, cell-volume constant on the
+                        # other: the fallback weight 1.0 of _inner_weights does not cancel
+                        ran = odl.uniform_discr(rlo, rhi, m)
                     op = odl.ResizingOperator(dom, ran, pad_mode=mode)
                     r = random.Random(n * 31 + m)
                     x = dom.element(rand_data(r, (n,), 'float64'))
@@ -1901,8 +1905,9 @@ def custom_inner_checks(ctx):
                         'custom-inner {} adjoint-identity mode={} axis={}'.format(
                             name, mode, 'grow' if m > n else 'shrink'),
                         '<Ax, y>_range = {} but <x, A*y>_domain = {} (domain inner product = {} * '
-                        'vdot, range inner product = vdot, both NumpyTensorSpaceCustomInner)'
-                        .format(lhs, rhs, scale),
+                        'vdot as NumpyTensorSpaceCustomInner, range: {})'
+                        .format(lhs, rhs, scale, 'default cell-volume weighting'
+                                if name == 'plain-vs-default' else 'vdot as custom inner'),
                         {'kind': 'custom-inner', 'name': name, 'mode': mode, 'n': n, 'm': m})
 
 
@@ -2719,6 +2724,7 @@ def run(ctx):
     expected += ['boundary/only_once=True', 'boundary/only_once=False', 'boundary/one-entry-axis',
                  'boundary/scale-bdry-cells/forward', 'boundary/scale-bdry-cells/inverse',
                  'helpers/constant-mode', 'boundary/custom-inner/plain',
+                 'boundary/custom-inner/plain-vs-default',
                  'boundary/custom-inner/scaled', 'aob-model', 'scalebdry-model',
                  'derived/axes/none', 'derived/axes/some', 'derived/axes/all']
     expected += ['boundary/nodes_on_bdry-form/' + k_ for k_ in
